@@ -30,7 +30,13 @@ extern const char *g_p;     /* arbitrary byte position */
 extern const char *g_q;     /* a second, independent one */
 extern size_t g_k;          /* arbitrary index */
 extern size_t g_k2;
-#define IN_RANGE(gp, base, lo, hi) (__CPROVER_same_object((gp), (base)) && (gp) >= (base) + (lo) && (gp) < (base) + (hi))
+/* ghost index g_k is an absolute offset inside the object that `base` points into, so that facts survive
+ * remove_prefix()/substr() (which move the pointer, not the object): position g_k lies in base[lo..hi) */
+#define OFF(base) ((size_t)__CPROVER_POINTER_OFFSET(base))
+#define GK_IN(base, lo, hi) (g_k >= OFF(base) + (lo) && g_k < OFF(base) + (hi))
+#define GK_AT(base) ((base)[g_k - OFF(base)])
+#define GK2_IN(base, lo, hi) (g_k2 >= OFF(base) + (lo) && g_k2 < OFF(base) + (hi))
+#define GK2_AT(base) ((base)[g_k2 - OFF(base)])
 
 typedef struct { const char *p; size_t n; } sv_t;
 typedef struct { size_t n; char d[STR_CAP + 1]; } str_t;
@@ -41,8 +47,27 @@ typedef struct { const uint32_t *p; size_t n; } u32sv_t;
 #define STD_MIN(a, b) ((b) < (a) ? (b) : (a))
 #define STD_MAX(a, b) ((a) < (b) ? (b) : (a))
 
-/* a string_view handed to extracted code: object of exactly n bytes (reads past n are caught) */
+/* a string_view handed to extracted code.
+ * unbounded mode : a fresh object of exactly n bytes, n symbolic up to maxn (reads outside [0,n) are caught);
+ * bounded mode (-DBUF_N=k, quick tier): the view is the LAST n bytes of a k-byte global buffer with arbitrary
+ *   contents, so that a read past the end of the view still leaves the object and is caught (a read before the
+ *   start is not).  CBMC encodes a symbolic-size object with the array theory, which costs minutes per SIMD
+ *   kernel; a fixed-size object is flattened and costs seconds. */
+#ifdef BUF_N
+extern char g_buf[BUF_N], g_buf2[BUF_N];
+#define SV_VALID(v, maxn) ((v).n <= BUF_N && (v).n <= (maxn) && (v).p == g_buf + (BUF_N - (v).n))
+#define SV_VALID2(v, maxn) ((v).n <= BUF_N && (v).n <= (maxn) && (v).p == g_buf2 + (BUF_N - (v).n))
+#define HAVOC_BUFS do { __CPROVER_havoc_object(g_buf); __CPROVER_havoc_object(g_buf2); } while (0)
+/* the harness must *assign* the pointer (an assumed pointer equality does not inform CBMC's points-to sets) */
+#define MAKE_SV(v) do { __CPROVER_assume((v).n <= BUF_N); (v).p = g_buf + (BUF_N - (v).n); } while (0)
+#define MAKE_SV2(v) do { __CPROVER_assume((v).n <= BUF_N); (v).p = g_buf2 + (BUF_N - (v).n); } while (0)
+#else
 #define SV_VALID(v, maxn) ((v).n <= (maxn) && __CPROVER_is_fresh((v).p, (v).n))
+#define SV_VALID2(v, maxn) SV_VALID(v, maxn)
+#define HAVOC_BUFS ((void)0)
+#define MAKE_SV(v) ((void)0)
+#define MAKE_SV2(v) ((void)0)
+#endif
 
 /* ---------------------------------------------------------------- string_view, read-only */
 static inline size_t sv_size(sv_t v) { return v.n; }
@@ -81,7 +106,7 @@ static inline size_t sv_find__c_z(sv_t v, char c, size_t pos) {
   for (; i < v.n; i++)
     LOOPC(__CPROVER_assigns(i)
           __CPROVER_loop_invariant(pos <= i && (i <= v.n || pos > v.n))
-          __CPROVER_loop_invariant(IN_RANGE(g_p, v.p, pos, i) ==> *g_p != c)
+          __CPROVER_loop_invariant(GK_IN(v.p, pos, i) ==> GK_AT(v.p) != c)
           __CPROVER_decreases(v.n - i))
   {
     if (v.p[i] == c) return i;
@@ -95,7 +120,7 @@ static inline size_t sv_rfind__c(sv_t v, char c) {
   while (i > 0)
     LOOPC(__CPROVER_assigns(i)
           __CPROVER_loop_invariant(i <= v.n)
-          __CPROVER_loop_invariant(IN_RANGE(g_p, v.p, i, v.n) ==> *g_p != c)
+          __CPROVER_loop_invariant(GK_IN(v.p, i, v.n) ==> GK_AT(v.p) != c)
           __CPROVER_decreases(i))
   {
     if (v.p[i - 1] == c) return i - 1;
@@ -109,7 +134,7 @@ static inline _Bool sv_eq(sv_t a, sv_t b) {
   for (size_t i = 0; i < a.n; i++)
     LOOPC(__CPROVER_assigns(i)
           __CPROVER_loop_invariant(i <= a.n)
-          __CPROVER_loop_invariant(g_k < i ==> a.p[g_k] == b.p[g_k])
+          __CPROVER_loop_invariant(g_k2 < i ==> a.p[g_k2] == b.p[g_k2])
           __CPROVER_decreases(a.n - i))
   {
     if (a.p[i] != b.p[i]) return 0;
@@ -326,14 +351,14 @@ static inline from_chars_result_t std_from_chars__uint16_t(const char *first, co
   static inline _Bool name(sv_t v) { \
     for (size_t i = 0; i < v.n; i++) \
       LOOPC(__CPROVER_assigns(i) __CPROVER_loop_invariant(i <= v.n) \
-            __CPROVER_loop_invariant(IN_RANGE(g_p, v.p, 0, i) ==> SPEC_##pred(*g_p)) __CPROVER_decreases(v.n - i)) \
+            __CPROVER_loop_invariant(GK_IN(v.p, 0, i) ==> SPEC_##pred(GK_AT(v.p))) __CPROVER_decreases(v.n - i)) \
     { if (!pred(v.p[i])) return 0; } \
     return 1; }
 #define DEFINE_ANY_OF_SV(name, pred) \
   static inline _Bool name(sv_t v) { \
     for (size_t i = 0; i < v.n; i++) \
       LOOPC(__CPROVER_assigns(i) __CPROVER_loop_invariant(i <= v.n) \
-            __CPROVER_loop_invariant(IN_RANGE(g_p, v.p, 0, i) ==> !SPEC_##pred(*g_p)) __CPROVER_decreases(v.n - i)) \
+            __CPROVER_loop_invariant(GK_IN(v.p, 0, i) ==> !SPEC_##pred(GK_AT(v.p))) __CPROVER_decreases(v.n - i)) \
     { if (pred(v.p[i])) return 1; } \
     return 0; }
 #define DEFINE_FIND_IF_SV(name, pred) \
@@ -341,7 +366,7 @@ static inline from_chars_result_t std_from_chars__uint16_t(const char *first, co
     size_t i = 0; \
     for (; i < v.n; i++) \
       LOOPC(__CPROVER_assigns(i) __CPROVER_loop_invariant(i <= v.n) \
-            __CPROVER_loop_invariant(IN_RANGE(g_p, v.p, 0, i) ==> !SPEC_##pred(*g_p)) __CPROVER_decreases(v.n - i)) \
+            __CPROVER_loop_invariant(GK_IN(v.p, 0, i) ==> !SPEC_##pred(GK_AT(v.p))) __CPROVER_decreases(v.n - i)) \
     { if (pred(v.p[i])) break; } \
     return v.p + i; }
 #define DEFINE_FIND_IF_NOT_SV(name, pred) \
@@ -349,7 +374,7 @@ static inline from_chars_result_t std_from_chars__uint16_t(const char *first, co
     size_t i = 0; \
     for (; i < v.n; i++) \
       LOOPC(__CPROVER_assigns(i) __CPROVER_loop_invariant(i <= v.n) \
-            __CPROVER_loop_invariant(IN_RANGE(g_p, v.p, 0, i) ==> SPEC_##pred(*g_p)) __CPROVER_decreases(v.n - i)) \
+            __CPROVER_loop_invariant(GK_IN(v.p, 0, i) ==> SPEC_##pred(GK_AT(v.p))) __CPROVER_decreases(v.n - i)) \
     { if (!pred(v.p[i])) break; } \
     return v.p + i; }
 #define DEFINE_FIND_IF_NOT_STR(name, pred) \
